@@ -264,7 +264,7 @@ class Model(object):
         obj = sumsq(rvec)
         if self.h is not None:
             obj += self.h(remove_scaling(xabs, self.scaling_changes), *self.argsh)
-        if self.objsave is None or obj <= self.objsave:
+        if self.objsave is None or obj <= self.objsave or (np.isnan(self.objsave) and not np.isnan(obj)):
             self.xsave = xabs
             self.rsave = rvec.copy()
             self.objsave = obj
